@@ -450,10 +450,11 @@ func (x *Exec) runPath(job *Job, prefix []bool) (pending [][]bool) {
 		if n%int64(job.WitEvery) == 0 {
 			x.sol.send("(push 1)\n")
 			if x.sol.check() == "sat" {
-				m := map[string]string{}
-				if len(x.vars) > 0 {
-					m = parseModel(x.sol.getValues(x.vars))
+				var nv []Val
+				for _, nt := range x.notes {
+					nv = append(nv, nt.V)
 				}
+				m := x.modelOf(nv)
 				w := &Witness{Entry: job.Entry, Params: job.Params, Tape: x.renderTape(m), End: end}
 				for _, nt := range x.notes {
 					w.Notes = append(w.Notes, nt.Tag+"="+x.renderVal(nt.V, m))
